@@ -455,11 +455,15 @@ fn raw_reset_case(st: &mut Stats, seed: u64) {
 }
 
 /// (d') raw peer sends Connect with id 0 and with an id in use; the existing flow must be undisturbed.
-fn raw_bad_connect_case(st: &mut Stats, seed: u64) {
+pub fn raw_bad_connect_case(st: &mut Stats, seed: u64) {
     st.evaluations += 1;
     st.engine("SIM", 1);
     let mut rng = Rng64::new(mix(seed, 0xE7));
-    let cfg = EpCfg { rwnd: *rng.pick(&[2u32, 4, 16]), thr: 1, ..EpCfg::default() };
+    // in half of the cases the application has stopped accepting and its accept queue is exactly full when the offending
+    // Connects arrive: a Connect that only needs a Reset needs no room in that queue
+    let queue_full = rng.chance(1, 2);
+    let qn = rng.range(1, 3) as usize;
+    let cfg = EpCfg { rwnd: *rng.pick(&[2u32, 4, 16]), thr: 1, stream_buf: if queue_full { qn } else { EpCfg::default().stream_buf }, ..EpCfg::default() };
     let sh = sim::Shared::new(mix(seed, 3), rng.below(4) as u8);
     let kind = "raw-bad-connect";
     let live: u32 = rng.next() as u32 | 1;
@@ -474,6 +478,15 @@ fn raw_bad_connect_case(st: &mut Stats, seed: u64) {
         raw.send(&RefFrame::Connect { id: live, rwnd: 8, port: 7, host: b"s1.".to_vec() }).await;
         let mut s = e0.mux.accept_stream_channel().await.expect("accept");
         let acked = raw.drain().await;
+        let mut queued_ids: Vec<u32> = Vec::new();
+        if queue_full {
+            for k in 0..qn as u32 {
+                let id = (live ^ (0x0100_0000 + k * 2)) | 1;
+                raw.send(&RefFrame::Connect { id, rwnd: 2, port: 50 + k as u16, host: b"q.".to_vec() }).await;
+                queued_ids.push(id);
+            }
+            raw.drain().await;
+        }
         // optionally the endpoint also has an unanswered bind request: its id is in use as well
         let mut pend_bind = None;
         let mut bind_id = None;
@@ -492,6 +505,10 @@ fn raw_bad_connect_case(st: &mut Stats, seed: u64) {
         if let Some(b) = bind_id {
             bad.insert(bind_pos.min(bad.len()), b);
         }
+        if let Some(q) = queued_ids.first() {
+            // the id of a stream that is acknowledged but still waiting in the accept queue is in use as well
+            bad.push(*q);
+        }
         for id in bad {
             raw.send(&RefFrame::Connect { id, rwnd: 3, port: 1, host: b"s9.".to_vec() }).await;
             replies.push((id, raw.drain().await));
@@ -504,7 +521,14 @@ fn raw_bad_connect_case(st: &mut Stats, seed: u64) {
         let wr = tokio::time::timeout(Duration::from_millis(5), s.write(b"yo")).await;
         let after = raw.drain().await;
         let got_push = after.iter().any(|g| matches!(g, Got::Frame(RefFrame::Push { id, data }) if *id == live && data == b"yo"));
-        // nothing must have been handed to the application for the rejected Connects
+        // nothing must have been handed to the application for the rejected Connects (the streams queued before them are)
+        let mut queued_streams = Vec::new();
+        for _ in 0..queued_ids.len() {
+            if let Ok(Ok(qs)) = tokio::time::timeout(Duration::from_millis(5), e0.mux.accept_stream_channel()).await {
+                queued_streams.push(qs);
+            }
+        }
+        let queued_ok = queued_streams.len() == queued_ids.len();
         let extra = tokio::time::timeout(Duration::from_millis(2), e0.mux.accept_stream_channel()).await.is_ok();
         // the bind request is still answerable: the peer accepts it now
         let mut bind_res = None;
@@ -519,16 +543,23 @@ fn raw_bad_connect_case(st: &mut Stats, seed: u64) {
             });
         }
         drop(s);
+        drop(queued_streams);
         drop(e0.mux);
         raw.drain().await;
         raw.close().await;
         e0.task.await.ok();
-        (acked, replies, read_ok, matches!(wr, Ok(Ok(2))), got_push, extra, bind_id, bind_res)
+        (acked, replies, read_ok, matches!(wr, Ok(Ok(2))), got_push, extra, bind_id, bind_res, queued_ok)
     });
     let log = sh.take_log();
     match end {
-        sim::RunEnd::Finished((acked, replies, read_ok, wrote, got_push, extra, bind_id, bind_res)) => {
+        sim::RunEnd::Finished((acked, replies, read_ok, wrote, got_push, extra, bind_id, bind_res, queued_ok)) => {
             st.target("raw_bad_connect_runs", 1);
+            if queue_full {
+                st.target("bad_connects_at_a_full_accept_queue", 1);
+                if !queued_ok {
+                    viol(st, format!("queued-stream-not-delivered|{kind}"), format!("{qn} streams had been acknowledged and were waiting in the accept queue; the application did not get all of them after the rejected Connects"), kind, seed, &log);
+                }
+            }
             if with_bind {
                 match (&bind_id, &bind_res) {
                     (Some(_), Some(r)) => {
@@ -546,7 +577,8 @@ fn raw_bad_connect_case(st: &mut Stats, seed: u64) {
             for (id, rep) in &replies {
                 let resets = rep.iter().filter(|g| matches!(g, Got::Frame(RefFrame::Reset { id: i }) if i == id)).count();
                 let acks = rep.iter().filter(|g| matches!(g, Got::Frame(RefFrame::Ack { id: i, .. }) if i == id)).count();
-                let which = if *id == 0 { "zero" } else if Some(*id) == bind_id { "in-use-by-bind" } else { "in-use" };
+                let which = if *id == 0 { "zero" } else if Some(*id) == bind_id { "in-use-by-bind" } else if *id != live { "in-use-by-queued-stream" } else { "in-use" };
+                let which = if queue_full { format!("{which}|accept-queue-full") } else { which.to_string() };
                 if resets != 1 || acks != 0 {
                     viol(st, format!("bad-connect-answer|{which}|{kind}"), format!("Connect with {which} id {id:x} was answered by {resets} Reset and {acks} Acknowledge frames (expected exactly one Reset): {rep:?}"), kind, seed, &log);
                 }
